@@ -1360,7 +1360,55 @@ func runR71(c *Ctx) {
 					}
 				}
 			})
-			if found {
+			// the back-fill must run whenever NULLs were counted: a guard on the counter may only say `nulls > 0`
+			guardOdd := ""
+			eachInstr(fn, func(in ssa.Instruction) {
+				iff, ok := in.(*ssa.If)
+				if !ok {
+					return
+				}
+				cond, _ := unNot(iff.Cond, true)
+				b, ok := cond.(*ssa.BinOp)
+				if !ok || fieldNameOfLoad(b.X) != "nulls" {
+					return
+				}
+				k, isK := constInt(b.Y)
+				if !isK {
+					return // the loop bound itself (i < nulls) has the counter on the right
+				}
+				okG := k == 0 && (b.Op == token.GTR || b.Op == token.NEQ || b.Op == token.EQL || b.Op == token.LEQ) || k == 1 && (b.Op == token.GEQ || b.Op == token.LSS)
+				// polarity: the branch taken when nulls > 0 must lead to the loop
+				if okG {
+					posEdge := 0
+					if b.Op == token.EQL || b.Op == token.LEQ || b.Op == token.LSS {
+						posEdge = 1
+					}
+					if _, neg := iff.Cond.(*ssa.UnOp); neg {
+						posEdge = 1 - posEdge
+					}
+					reaches := false
+					for _, li := range loopsOf(fn) {
+						for _, call := range calls {
+							if inLoop(li, call.Block()) {
+								for _, rb := range reachableAvoiding(iff.Block().Succs[posEdge], nil) {
+									if rb == li.header {
+										reaches = true
+									}
+								}
+							}
+						}
+					}
+					if !reaches {
+						okG = false
+					}
+				}
+				if !okG {
+					guardOdd = fmt.Sprintf("the back-fill is guarded by `nulls %s %s` (or its branches are swapped), which is not `nulls > 0`: for some counts of leading NULLs the rows are not restored", b.Op, describe(b.Y))
+				}
+			})
+			if found && guardOdd != "" {
+				c.bad(key, p.pos(fn.Pos()), guardOdd)
+			} else if found {
 				c.ok(key, p.pos(fn.Pos()), "NULLs counted before the type was known are appended (loop bounded by the nulls counter)")
 			} else {
 				c.bad(key, p.pos(fn.Pos()), fmt.Sprintf("%s appends to %s, a slice Null() marks nulls in, but never back-fills the NULLs counted before the column's type was known: leading NULLs lose their rows and the column ends up shorter than the others", fn.Name(), f))
@@ -1393,18 +1441,23 @@ func runR71(c *Ctx) {
 					key := fmt.Sprintf("%s|float append, world precision>0=%v", fnm, world)
 					pe := &pathExec{fn: fn}
 					var got ssa.Value
+					precisionOdd := ""
 					atom := func(x ssa.Value) (bool, bool) {
 						b, ok := x.(*ssa.BinOp)
 						if !ok {
 							return false, false
 						}
-						if fieldNameOfLoad(b.X) == "precision" || fieldNameOfLoad(b.Y) == "precision" {
-							switch b.Op {
-							case token.GTR, token.NEQ, token.GEQ:
+						if fieldNameOfLoad(b.X) == "precision" {
+							// only tests that mean `precision > 0` are understood: > 0, != 0, >= 1 and their negations
+							k, isK := constInt(b.Y)
+							switch {
+							case isK && k == 0 && (b.Op == token.GTR || b.Op == token.NEQ), isK && k == 1 && b.Op == token.GEQ:
 								return world, true
-							case token.LEQ, token.EQL, token.LSS:
+							case isK && k == 0 && (b.Op == token.LEQ || b.Op == token.EQL), isK && k == 1 && b.Op == token.LSS:
 								return !world, true
 							}
+							precisionOdd = fmt.Sprintf("the precision is tested as `%s %s %s`, which is not `precision > 0`: some configured precisions are ignored", "precision", b.Op, describe(b.Y))
+							return false, false
 						}
 						if fieldNameOfLoad(b.X) == "ptr" || fieldNameOfLoad(b.X) == "kind" {
 							return b.Op == token.NEQ, true // the type is already known
@@ -1430,6 +1483,10 @@ func runR71(c *Ctx) {
 						}
 					}
 					end, why := pe.run()
+					if precisionOdd != "" {
+						c.bad(key, p.instrPos(call), precisionOdd)
+						continue
+					}
 					if _, ok := end.(*ssa.Return); !ok {
 						c.undecided(key, p.instrPos(call), "cannot evaluate: "+why)
 						continue
